@@ -8,6 +8,8 @@ import (
 	"os"
 	"os/exec"
 	"path/filepath"
+	"regexp"
+	"sort"
 	"strings"
 	"time"
 
@@ -108,7 +110,11 @@ func runNative(h HarnessSpec, args []int, realOv map[string]string, files []stri
 	ctx, cancel := context.WithTimeout(context.Background(), timeout+180*time.Second)
 	defer cancel()
 	var out bytes.Buffer
-	built, ok := builtTests[h.Pkg]
+	buildKey := h.Pkg
+	if len(h.NativeRewrite) > 0 {
+		buildKey += "|rewritten"
+	}
+	built, ok := builtTests[buildKey]
 	if !ok {
 		pkgName := filepath.Base(h.Pkg)
 		if n := harnessPackageName(h); n != "" {
@@ -121,12 +127,15 @@ func runNative(h HarnessSpec, args []int, realOv map[string]string, files []stri
 			rep[v] = r
 		}
 		rep[filepath.Join(repoRoot, pkgRelDir(h.Pkg), "zz_verif_replay_test.go")] = testPath
+		for orig, rewritten := range nativeRewrites(h, wd) {
+			rep[orig] = rewritten
+		}
 		ovb, _ := json.Marshal(map[string]any{"Replace": rep})
 		ovPath := filepath.Join(wd, "overlay_"+sanitizeName(pkgName)+".json")
 		os.WriteFile(ovPath, ovb, 0o644)
 		// compile the test binary (go test -c never changes into the package directory,
 		// which matters for overlay-only harness packages)
-		bin := filepath.Join(wd, "replay_"+sanitizeName(strings.ReplaceAll(pkgRelDir(h.Pkg), "/", "_"))+".test")
+		bin := filepath.Join(wd, "replay_"+sanitizeName(strings.ReplaceAll(pkgRelDir(h.Pkg), "/", "_"))+fmt.Sprint(len(h.NativeRewrite))+".test")
 		build := exec.CommandContext(ctx, "go", "test", "-c", "-vet=off", "-tags", "verif", "-overlay", ovPath, "-o", bin, "./"+pkgRelDir(h.Pkg)+"/")
 		build.Dir = repoRoot
 		var bout bytes.Buffer
@@ -136,7 +145,7 @@ func runNative(h HarnessSpec, args []int, realOv map[string]string, files []stri
 		} else {
 			built = [2]string{bin, ""}
 		}
-		builtTests[h.Pkg] = built
+		builtTests[buildKey] = built
 	}
 	if built[0] == "" {
 		out.WriteString(built[1])
@@ -182,6 +191,55 @@ func runNative(h HarnessSpec, args []int, realOv map[string]string, files []stri
 		}
 	}
 	return results, text
+}
+
+// nativeRewrites applies h.NativeRewrite to the package's own sources and returns overlay
+// entries original path -> rewritten copy.
+func nativeRewrites(h HarnessSpec, wd string) map[string]string {
+	out := map[string]string{}
+	if len(h.NativeRewrite) == 0 {
+		return out
+	}
+	dir := filepath.Join(repoRoot, pkgRelDir(h.Pkg))
+	ents, err := os.ReadDir(dir)
+	if err != nil {
+		return out
+	}
+	var pats []string
+	for p := range h.NativeRewrite {
+		pats = append(pats, p)
+	}
+	sort.Strings(pats)
+	for _, e := range ents {
+		name := e.Name()
+		if !strings.HasSuffix(name, ".go") || strings.HasSuffix(name, "_test.go") || strings.HasPrefix(name, "zz_verif") {
+			continue
+		}
+		src, err := os.ReadFile(filepath.Join(dir, name))
+		if err != nil {
+			continue
+		}
+		text := string(src)
+		changed := text
+		for _, p := range pats {
+			re, err := regexp.Compile(p)
+			if err != nil {
+				continue
+			}
+			changed = re.ReplaceAllString(changed, h.NativeRewrite[p])
+		}
+		if changed == text {
+			continue
+		}
+		if regexp.MustCompile(`(?m)^\s*"os"\s*$`).MatchString(changed) {
+			changed += "\nvar _ = os.ErrNotExist // keeps the import used after the rewrite\n"
+		}
+		dst := filepath.Join(wd, "rewritten_"+sanitizeName(pkgRelDir(h.Pkg))+"_"+name)
+		if os.WriteFile(dst, []byte(changed), 0o644) == nil {
+			out[filepath.Join(dir, name)] = dst
+		}
+	}
+	return out
 }
 
 func firstMatchLine(text, sub string) string {
